@@ -31,6 +31,18 @@ ITER_EXCEPTIONS = {
 }
 
 
+def _back_ref(t):
+    """(attribute, owner) when the term is a back-reference list `<owner>.ownEdges|ownCells|own_big_edges` - also when the owner is a
+    choice (`v0` looked up directly or through the mapper): attribute access distributes over the choice"""
+    if t[0] == "attr" and t[2] in BACK:
+        return t[2], t[1]
+    if t[0] == "phi":
+        a, b = _back_ref(t[2]), _back_ref(t[3])
+        if a is not None and b is not None and a[0] == b[0]:
+            return a[0], T.phi(t[1], a[1], b[1])
+    return None
+
+
 def _no_cell_test(n):
     """len(x.ownCells) == 0 | 0 == len(..) | len(..) < 1 | 1 > len(..) | len(..) <= 0 | not x.ownCells"""
     def own_len(x):
@@ -86,25 +98,44 @@ def run(ctx):
     ctx.touch(f)
     s = sym.summarize(repo, f.qualname)
     vold, vnew = T.sym(f.params[1]), T.sym(f.params[2])
-    who = T.phi(T.cmp("Eq", T.attr(T.attr(SELF, "v1"), "id"), T.attr(vold, "id")), T.num(0), T.num(1))
-    rem = [e for e in s.events if e.kind == "call" and isinstance(e.fname, tuple) and e.fname[1] == "remove"]
-    rem += calls_on(s, "remove_edge")
-    ok1 = len(rem) == 1 and rem[0].args == (T.attr(SELF, "id"),) and not rem[0].conds() and \
-        rem[0].recv in (T.attr(T.idx(T.attr(SELF, "verticesArray"), who), "ownEdges"), T.idx(T.attr(SELF, "verticesArray"), who),
-                        T.attr(vold, "ownEdges"), vold)
-    st1 = [e for e in s.stores("v1") if e.base == SELF]
-    st2 = [e for e in s.stores("v2") if e.base == SELF]
-    is0 = T.cmp("Eq", who, T.num(0))
-    ok2 = len(st1) == 1 and len(st2) == 1 and st1[0].value == vnew and st2[0].value == vnew and \
-        st1[0].conds() == T.conjuncts(is0) and st2[0].conds() == T.conjuncts(T.b_not(is0))
-    sta = [e for e in s.stores("verticesArray") if e.sub]
-    ok3 = len(sta) == 1 and sta[0].key == who and sta[0].value == vnew and not sta[0].conds()
-    add = calls_on(s, "add_edge")
-    ok4 = len(add) == 1 and add[0].recv == vnew and add[0].args == (T.attr(SELF, "id"),) and not add[0].conds()
-    order = bool(rem and sta and add) and rem[0].node.lineno < sta[0].node.lineno <= add[0].node.lineno
-    ctx.check(ok1 and ok2 and ok3 and ok4 and order, "PAIR", f"{f.qualname} / PAIR / old end unregistered, v1|v2 and verticesArray updated together, new end registered",
-              ctx.where(f), "remove id from the old end; rebind v1 or v2 and verticesArray[who]; add id to the new end",
-              f"replace_vertex is unbalanced: unregister-old={ok1} rebinding-v1|v2={ok2} verticesArray={ok3} register-new={ok4} order={order}")
+    # decided case by case (the old vertex is the first end / it is the second end), so that it does not matter whether the slot is
+    # computed into an index first or the two cases are written out as branches
+    C = T.cmp("Eq", T.attr(T.attr(SELF, "v1"), "id"), T.attr(vold, "id"))
+    VA = T.attr(SELF, "verticesArray")
+    report = {}
+    for K, slot, end_attr, other_attr in ((C, 0, "v1", "v2"), (T.b_not(C), 1, "v2", "v1")):
+        notK = T.b_not(K)
+
+        def in_case(e):
+            cs = e.conds()
+            return notK not in cs and all(c == K for c in cs)
+
+        def spec_(t):
+            """the term under the case: choices on the case condition resolved"""
+            def f_(x):
+                if x[0] == "phi" and x[1] == C:
+                    return x[2] if K == C else x[3]
+                if x[0] == "phi" and x[1] == T.b_not(C):
+                    return x[3] if K == C else x[2]
+                return None
+            return T.transform(t, f_)
+        rem = [e for e in s.events if e.kind == "call" and isinstance(e.fname, tuple) and e.fname[1] in ("remove", "remove_edge") and in_case(e)]
+        old_end = (T.attr(T.idx(VA, T.num(slot)), "ownEdges"), T.idx(VA, T.num(slot)), T.attr(vold, "ownEdges"), vold,
+                   T.attr(T.attr(SELF, end_attr), "ownEdges"), T.attr(SELF, end_attr))
+        ok1 = len(rem) == 1 and rem[0].args == (T.attr(SELF, "id"),) and spec_(rem[0].recv) in old_end
+        st_end = [e for e in s.stores(end_attr) if e.base == SELF and in_case(e)]
+        st_other = [e for e in s.stores(other_attr) if e.base == SELF and in_case(e)]
+        ok2 = len(st_end) == 1 and st_end[0].value == vnew and not st_other
+        sta = [e for e in s.stores("verticesArray") if e.sub and in_case(e)]
+        ok3 = len(sta) == 1 and spec_(sta[0].key) == T.num(slot) and sta[0].value == vnew
+        add = [e for e in calls_on(s, "add_edge") if in_case(e)]
+        ok4 = len(add) == 1 and spec_(add[0].recv) in (vnew, T.idx(VA, T.num(slot))) and add[0].args == (T.attr(SELF, "id"),)
+        order = bool(rem and sta and add) and rem[0].node.lineno < sta[0].node.lineno <= add[0].node.lineno
+        report[end_attr] = dict(unregister_old=ok1, rebinding=ok2, verticesArray=ok3, register_new=ok4, order=order)
+    ctx.check(all(all(v.values()) for v in report.values()), "PAIR",
+              f"{f.qualname} / PAIR / old end unregistered, v1|v2 and verticesArray updated together, new end registered",
+              ctx.where(f), "in either case: remove id from the old end; rebind v1 (or v2) and verticesArray[0] (or [1]); add id to the new end",
+              f"replace_vertex is unbalanced: {report}")
 
     # ================================================================== Cell pairing
     ctx.clause("a vertex lists a cell exactly when it occurs in that cell's vertex cycle")
@@ -236,7 +267,8 @@ def run(ctx):
                         if nm == "cells":
                             cell_actions.append(n.lineno)
             elif isinstance(n, ast.Call) and isinstance(n.func, ast.Attribute):
-                if n.func.attr == "clear":
+                if n.func.attr in ("clear", "pop"):
+                    # edges.clear() / edges.pop(k[, default]) remove edges from the dictionary like `del edges[k]`
                     b = n.func.value
                     nm = b.id if isinstance(b, ast.Name) else b.attr if isinstance(b, ast.Attribute) else None
                     if nm == "edges":
@@ -459,13 +491,12 @@ def run(ctx):
             continue
         s = sym.summarize(repo, q)
         for e in s.events:
-            live = [g for g in e.loops() if g[2][0] == "attr" and g[2][2] in BACK]
+            live = [g for g in e.loops() if _back_ref(g[2]) is not None]
             if not live:
                 continue
             n_checked += 1
             for g in live:
-                attr = g[2][2]
-                owner = g[2][1]
+                attr, owner = _back_ref(g[2])
                 hit = None
                 if e.kind == "del" and (e.attr or "").lstrip("$") in REMOVERS.get(attr, ()):
                     hit = f"`del {(e.attr or '').lstrip('$')}[...]` runs the destructor, which removes from the iterated {attr}"
